@@ -1791,6 +1791,61 @@ def _split_pieces(m, s, pat, inclusive=False, terminator=False):
     return pieces
 
 
+# -- format!: the text is an opaque string determined by the template and the arguments ---------------------------------------------
+
+@reg('Argument::new_display', 'Argument::new_debug', 'Argument::new_lower_hex', 'Argument::new_upper_hex')
+def fmt_argument_new(m, a, ci):
+    v = a[0]
+    while isinstance(v, Ref):
+        v = m.load(v)
+    return Opaque('fmt_arg', (ci.method, repr(v)))
+
+
+@reg('Arguments::new', 'Arguments::new_v1', 'Arguments::new_v1_formatted')
+def fmt_arguments_new(m, a, ci):
+    arr = m.load(a[1]) if len(a) > 1 and isinstance(a[1], Ref) else (a[1] if len(a) > 1 else None)
+    return Opaque('fmt_arguments', (repr(a[0]), repr(getattr(arr, 'fields', arr))))
+
+
+@reg('Arguments::from_str', 'Arguments::new_const')
+def fmt_arguments_const(m, a, ci):
+    return Opaque('fmt_arguments', (repr(a[0]), ''))
+
+
+@reg('must_use', 'hint::must_use')
+def hint_must_use(m, a, ci):
+    return a[0]
+
+
+@reg('format', 'fmt::format', 'alloc::fmt::format')
+def fmt_format(m, a, ci):
+    x = a[0]
+    return OStr(('format', repr(x.deps if isinstance(x, Opaque) else x)))
+
+
+@reg('str::split_once', 'str::rsplit_once')
+def str_split_once(m, a, ci):
+    """Some((before, after)) at the first (last for rsplit_once) occurrence of the pattern, None without one"""
+    s = _s(m, a[0])
+    f = char_pred(m, a[1])
+    n = len(s)
+    if f is not None:
+        order = range(n) if ci.method == 'split_once' else reversed(range(n))
+        for i in order:
+            if m.ctx.branch(f(s.chars[i])):
+                return some(tup(s.sub(0, i), s.sub(i + 1, n)))
+        return NONE
+    p = _pat(m, a[1])[1]
+    k = len(p)
+    if k == 0:
+        raise EncoderGap('split_once on empty pattern')
+    order = range(0, n - k + 1) if ci.method == 'split_once' else reversed(range(0, n - k + 1))
+    for i in order:
+        if m.ctx.branch(str_eq(s.sub(i, i + k), p)):
+            return some(tup(s.sub(0, i), s.sub(i + k, n)))
+    return NONE
+
+
 @reg('str::split')
 def str_split(m, a, ci):
     return ListIter(_split_pieces(m, _s(m, a[0]), a[1]))
